@@ -74,6 +74,11 @@ def build_assembly(heights, kinds, dens, params=None, assem_type="fuel", assem_n
         a.add(make_block("b%d" % i, kinds[i], h, dens[i], None if params is None else params[i]))
     a.reestablishBlockOrder()
     a.calculateZCoords()
+    # what blueprints set on every assembly / block they build (mesh subdivisions used by Core.findAllMeshPoints)
+    a.p.AziMesh = 1
+    a.p.RadMesh = 1
+    for b in a:
+        b.p.axMesh = 1
     return a
 
 
